@@ -5,7 +5,7 @@
    it a leaf item); a dictionary is its items() list; the priority compression is a function
    argument [compress] (its own properties are C13/C14); the built-in solver is not modelled. *)
 Require Import Puan.Base Puan.Bridge Puan.BridgeFacts.
-Require Import Puan.Plog Puan.Sem Puan.Link Puan.Link15.
+Require Import Puan.Plog Puan.Sem Puan.Link Puan.Link15 Puan.Errors Puan.ErrorsSpec Puan.Validated Puan.ColsFacts.
 Open Scope string_scope.
 
 (* ---- what the solver receives.  The solver is consulted exactly once, on the polyhedron it
@@ -297,6 +297,28 @@ Theorem C15_exact_puan :
       \/ (fst (fst r) = [] /\ forall y, ~ feasible (bpoly gens m) y)) objs rs.
 Proof. intros gens m H1 H2 H3 H4 H5 H6 H7 solver Hex. exact (solve_exact_puan gens m H1 H2 H3 H4 H5 H6 H7 solver Hex). Qed.
 Print Assumptions C15_exact_puan.
+
+(* the same from validation: the three column hypotheses are what C10 establishes *)
+Theorem C15_exact_validated :
+  forall (gens : ident -> bool) (m : prop),
+    errors2 m = [] -> no_bounds_hash_collision m -> no_value_hash_collision m ->
+    leaves_apart m -> gen_coherent m -> no_childless m ->
+    is_var m = false -> plain_shape m -> solver_safe m = true ->
+  forall (solver : solver_t), is_argmax solver ->
+  forall (objs : list dict) (incl : bool) (rs : list (dict * option Z * Z)),
+    solve solver (bpoly gens m) (bcols gens m) objs incl = Ok rs ->
+    Forall2 (fun o r =>
+      (exists x, feasible (bpoly gens m) x /\
+                 (forall y, feasible (bpoly gens m) y -> score (bcols gens m) o y <= score (bcols gens m) o x) /\
+                 fst (fst r) = decode_solve (bcols gens m) incl (Some x) /\
+                 eval (fun i => match dlookup (IdS i) (fst (fst r)) with Some z => z | None => 0 end) m = 1)
+      \/ (fst (fst r) = [] /\ forall y, ~ feasible (bpoly gens m) y)) objs rs.
+Proof.
+  intros gens m He Hb Hv Hla Hgc Hnc H1 H2 H3 solver Hex.
+  destruct (validated_columns m (conj He (conj Hb Hv)) Hla Hgc Hnc) as (H4 & H5 & H6).
+  exact (solve_exact_puan gens m H1 H2 H3 H4 H5 H6 Hla solver Hex).
+Qed.
+Print Assumptions C15_exact_validated.
 
 (* Non-vacuity of its hypotheses: S = Any(B = All(a,b), c) with puan's own columns [B; a; b; c] *)
 Open Scope string_scope.
